@@ -78,7 +78,27 @@ CLAIM = {
             'property oracles on the real code only, every crash point incl. between the removals), simulate(index) '
             'under crashes, simulate_in_parallel, progress bars, a change in the number of digits of the variation '
             'count between runs (other file names). The in-place model is kept for the negative witness; it matched '
-            'the unfixed code on every exception crash point.',
+            'the unfixed code on every exception crash point. '
+            'Robustness classes: R4 by theorem (refused_restart_changes_nothing, mismatch_refused: a refused restart '
+            'performs no call and no file-system step; the following correct restart equals a direct one) + '
+            'correspondence (byte-identical folder, restart-after-refusal compared with the model) + oracle; R5/R7 '
+            'kinds of parameter difference (changed value, removed / ADDED scalar or array parameter, changed unpacked '
+            'set, grid reordered / shrunk / extended, int->str, 0->None, changed shape incl. broadcast-compatible and '
+            'size-0) by correspondence (the model only sees tag (in)equality, computed from the logical values) + '
+            'oracle classes mismatch-not-refused:<kind>; R1 (int/float/np.int8..int64/uint8/uint16/float16/float32 '
+            'scalars, int16/int32/int64/uint8/float32/complex64 arrays, tuples for parameters, rep_max and result '
+            'values; representation changed BETWEEN the runs must resume) and R2 (reversed / strided / zero-stride / '
+            'Fortran views, 0-d arrays, 2-D values, zero-length unpacked axis, size-0 values) by correspondence + '
+            'oracle only (the model is a function of the logical value by construction: tags are abstract); R3 (values '
+            'handed to the runner unchanged after crash, restart and a further restart; an earlier runner keeps its '
+            'results when another runner sharing the same parameter objects restarts) oracle only; R5 boundaries '
+            '(rep_max 0/1/499/500/501/1001, single variation, zero variations, 0/None/\'\' parameter values, first/last '
+            'crash index) correspondence + the theorems are unbounded; R6 (all result values x 2^40 / 2^-40 with a stop '
+            'rule on the sum; compared after exact unscaling) correspondence only - the runner has no tolerance; R7 '
+            '(simulate() again on the SAME runner object after the interruption, also with a raised rep_max; repeated '
+            'restart in a completed folder) correspondence + oracle; in the model a run is a function of the disk alone, '
+            'so no runner state exists to go stale (restart_ignores_temp_files). list vs tuple as the VALUE of a fixed '
+            'parameter is not exercised (the library treats them as different values, refusing the restart).',
 }
 
 PERIOD = 500
@@ -119,14 +139,94 @@ def eval_rule(rule, s, k, r):
 
 
 # ------------------------------------------------------------------ parameters
+# A spec holds LOGICAL values (ints, strings, None, nested lists of ints); `spec['rep'][name]` says how the value
+# is handed to the library (R1 element types / R2 layouts).  Two specs with the same logical values are the
+# same parameters whatever their representation.
+SCALAR_REPS = ['int', 'float', 'np.int8', 'np.uint8', 'np.int16', 'np.uint16', 'np.int32', 'np.int64',
+               'np.float16', 'np.float32', 'np.float64', 'nd0']
+SEQ_REPS = ['list', 'nd:int16', 'nd:int32', 'nd:int64', 'nd:uint8', 'nd:float32', 'nd:float64', 'nd:complex64',
+            'nd:int64:rev', 'nd:float64:stride', 'nd:int32:F', 'nd:int64:bcast']
+
+
+def build(v, rep):
+    """the Python object for the logical value `v` in representation `rep`"""
+    import numpy as np
+    if v is None or isinstance(v, str):
+        return v
+    if isinstance(v, (list, tuple)):
+        rep = rep or 'list'
+        if rep == 'list':
+            return [build(x, None) if isinstance(x, list) else x for x in v]
+        if rep == 'tuple':
+            return tuple(v)
+        t = rep.split(':')
+        dt = getattr(np, t[1])
+        flag = t[2] if len(t) > 2 else ''
+        if flag == 'rev':            # a negative-stride view
+            return np.array(v[::-1], dtype=dt)[::-1]
+        if flag == 'stride':         # every second element of a longer buffer
+            buf = np.zeros(2 * len(v), dtype=dt) if not v or not isinstance(v[0], list) \
+                else np.zeros((2 * len(v),) + np.shape(v[0]), dtype=dt)
+            buf[::2] = v
+            return buf[::2]
+        if flag == 'F':              # Fortran order (matters for 2-D values)
+            return np.asfortranarray(np.array(v, dtype=dt))
+        if flag == 'bcast' and v and all(x == v[0] for x in v) and not isinstance(v[0], list):
+            return np.broadcast_to(np.array(v[0], dtype=dt), (len(v),))     # zero-stride view
+        return np.array(v, dtype=dt)
+    if v != v:
+        return float('nan')
+    rep = rep or 'int'
+    if rep == 'int':
+        return int(v)
+    if rep == 'float':
+        return float(v)
+    if rep == 'nd0':
+        return np.array(v)
+    if rep == 'bool':
+        return bool(v)
+    if rep.startswith('nd:'):
+        return np.array(v, dtype=getattr(np, rep.split(':')[1]))     # a 0-d array of that dtype
+    if rep in ('list', 'tuple'):
+        return int(v)
+    return getattr(np, rep.split('.')[1])(v)
+
+
+def canon(v):
+    """logical value of a Python object (numbers by value, sequences by shape and elements)"""
+    import numpy as np
+    from fractions import Fraction
+    if v is None:
+        return ('none',)
+    if isinstance(v, str):
+        return ('str', v)
+    if isinstance(v, np.ndarray):
+        if v.ndim == 0:
+            return canon(v.item())
+        return ('seq', tuple(canon(x) for x in v))
+    if isinstance(v, (list, tuple)):
+        return ('seq', tuple(canon(x) for x in v))
+    if isinstance(v, (complex, np.complexfloating)):
+        if v.imag != 0:
+            return ('cplx', repr(complex(v)))
+        v = v.real
+    if v != v:
+        return ('nan',)
+    return ('num', Fraction(float(v)) if isinstance(v, (float, np.floating)) else Fraction(int(v)))
+
+
 def make_params(p, spec):
-    """fill the SimulationParameters object `p` from spec = {'fixed': {...}, 'names': [...], 'vals': {...}}"""
+    """fill the SimulationParameters object `p`; returns the objects that were handed over"""
+    rep = spec.get('rep', {})
+    built = {}
     for k, v in sorted(spec['fixed'].items()):
-        p.add(k, v)
+        built[k] = build(v, rep.get(k))
+        p.add(k, built[k])
     for n in spec['names']:
-        p.add(n, list(spec['vals'][n]))
+        built[n] = build(list(spec['vals'][n]), rep.get(n))
+        p.add(n, built[n])
         p.set_unpack_parameter(n)
-    return p
+    return built
 
 
 def nvar_of(spec):
@@ -137,7 +237,7 @@ def nvar_of(spec):
 
 
 def variation_keys(spec):
-    """what identifies variation i: its index and its parameter values (rep_max excluded) —
+    """what identifies variation i: its index and the LOGICAL values of its parameters (rep_max excluded) —
     written down here from the statement of the property, not from `__eq__`"""
     names = sorted(spec['names'])
     dims = [len(spec['vals'][n]) for n in names]
@@ -150,15 +250,37 @@ def variation_keys(spec):
         items = dict(spec['fixed'])
         items.update(combo)
         idx = i if names else -1
-        out.append((idx, tuple(sorted((k, repr(v)) for k, v in items.items())), tuple(names)))
+        out.append((idx, tuple(sorted((k, canon(v)) for k, v in items.items()))))
     return out
 
 
 def params_key(p):
     """the same identification computed from a SimulationParameters object (a loaded file)"""
-    names = tuple(sorted(p._unpacked_parameters_set)) if p._original_sim_params is None \
-        else tuple(sorted(p._original_sim_params._unpacked_parameters_set))
-    return (p.unpack_index, tuple(sorted((k, repr(v)) for k, v in p.parameters.items() if k != 'rep_max')), names)
+    return (p.unpack_index, tuple(sorted((k, canon(v)) for k, v in p.parameters.items() if k != 'rep_max')))
+
+
+def diff_kind(case):
+    """how the parameters of run 2 differ from those of run 1 (computed from the two specs)"""
+    p1, p2 = case['p1'], case['p2']
+    if variation_keys(p1) == variation_keys(p2):
+        return 'same' if p1.get('rep', {}) == p2.get('rep', {}) else 'representation-only'
+    n1 = set(p1['fixed']) | set(p1['names'])
+    n2 = set(p2['fixed']) | set(p2['names'])
+    if n2 - n1:
+        return 'added-parameter'
+    if n1 - n2:
+        return 'removed-parameter'
+    if set(p1['names']) != set(p2['names']):
+        return 'unpacked-set-changed'
+    for k in p1['fixed']:
+        a, b = canon(p1['fixed'][k]), canon(p2['fixed'][k])
+        if a != b:
+            if a[0] != b[0] and 'seq' not in (a[0], b[0]):
+                return 'type-changed'
+            if a[0] != b[0] or (a[0] == 'seq' and len(a[1]) != len(b[1])):
+                return 'shape-changed'
+            return 'value-changed'
+    return 'grid-changed'
 
 
 def tag_table(case):
@@ -349,53 +471,87 @@ class Instrument:
         return False
 
 
-def make_runner(case, which, root, hooks, clock, log):
-    """a scripted runner for run 1 (`which` = 1) or run 2"""
+def scale_of(case):
+    return 2.0 ** case['scale_exp'] if case.get('scale_exp') else 1
+
+
+def out_value(o, case):
+    """the value a scripted repetition returns for the logical outcome `o` (R1 types, R6 scale)"""
+    if case.get('scale_exp'):
+        return float(o) * scale_of(case)
+    return build(o, case.get('out_rep'))
+
+
+def unscale(x, case):
+    """logical value of a stored sum (exact: the scale is a power of two)"""
+    if case.get('scale_exp'):
+        return x / scale_of(case)
+    return x
+
+
+def make_runner(case, which, built=None):
+    """a scripted runner configured for run `which`; what it does is in `runner.script` (see `arm`)"""
     from pyphysim.simulations.results import Result, SimulationResults
     from pyphysim.simulations.runner import SimulationRunner, SkipThisOne
-    outs = case['outs%d' % which]
-    clk = case['clk%d' % which]
-    off = 0 if which == 1 else len(case['outs1'])
-    keep = case['keep']
-    nt = ntok(case)
 
     class Scripted(SimulationRunner):
         def __init__(self):
             super().__init__(read_command_line_args=False)
             self.update_progress_function_style = None
             self.pos = 0
+            self.script = None
 
         def _run_simulation(self, current_parameters):
+            sc = self.script
+            outs, clk, off = sc['outs'], sc['clk'], sc['off']
             if self.pos >= len(outs):
                 raise ScriptExhausted()
             c = self.pos
             o = outs[c]
             self.pos += 1
-            clock.now += clk[c] if c < len(clk) else 0
-            log.append((max(current_parameters.unpack_index, 0), off + c, o))
-            if hooks is not None:
-                hooks.event('call')
+            sc['clock'].now += clk[c] if c < len(clk) else 0
+            sc['log'].append((max(current_parameters.unpack_index, 0), off + c, o))
+            if sc['hooks'] is not None:
+                sc['hooks'].event('call')
             if o == 's':
                 raise SkipThisOne('scripted skip')
             r = SimulationResults()
-            r.add_new_result('sum', Result.SUMTYPE, o)
-            for k in range(nt):
+            r.add_new_result('sum', Result.SUMTYPE, out_value(o, sc['case']))
+            for k in range(sc['nt']):
                 r.add_new_result('tok%d' % k, Result.SUMTYPE,
                                  (1 << ((off + c) % TOKBITS)) if (off + c) // TOKBITS == k else 0)
             return r
 
         def _keep_going(self, current_params, current_sim_results, current_rep):
+            sc = self.script
             pos = max(current_params.unpack_index, 0)
-            return eval_rule(keep[pos % len(keep)], current_sim_results['sum'][-1]._value,
+            keep = sc['case']['keep']
+            return eval_rule(keep[pos % len(keep)], unscale(current_sim_results['sum'][-1]._value, sc['case']),
                              current_sim_results['num_skipped_reps'][-1]._value, current_rep)
 
     runner = Scripted()
-    runner.rep_max = case['rm%d' % which]
-    make_params(runner.params, case['p%d' % which])
+    spec = case['p%d' % which]
+    if built is None:
+        runner.built = make_params(runner.params, spec)
+    else:                       # the SAME value objects as another runner (shared between two users)
+        runner.built = built
+        for k in sorted(spec['fixed']):
+            runner.params.add(k, built[k])
+        for n in spec['names']:
+            runner.params.add(n, built[n])
+            runner.params.set_unpack_parameter(n)
     runner.set_results_filename(BASE + case.get('ext', ''))
     if case.get('delete'):
         runner.delete_partial_results_bool = True
     return runner
+
+
+def arm(runner, case, which, hooks, clock, log):
+    runner.pos = 0
+    runner.rep_max = build(case['rm%d' % which], case.get('rm_rep'))
+    runner.script = {'outs': case['outs%d' % which], 'clk': case['clk%d' % which],
+                     'off': 0 if which == 1 else len(case['outs1']), 'log': log, 'hooks': hooks,
+                     'clock': clock, 'case': case, 'nt': ntok(case)}
 
 
 def _int(x):
@@ -428,8 +584,8 @@ def read_disk(case, root, tab):
             try:
                 sr = SimulationResults.load_from_file(fn)
                 tag = tab.get(params_key(sr.params), 'x')
-                f = (int(sr.current_rep), int(sr['num_skipped_reps'][-1]._value), sr['sum'][-1]._value,
-                     tok_of(sr, -1, ntok(case)), tag)
+                f = (int(sr.current_rep), int(sr['num_skipped_reps'][-1]._value),
+                     unscale(sr['sum'][-1]._value, case), tok_of(sr, -1, ntok(case)), tag)
                 s = 'V%s.%s.%s.%s.%s' % (_int(f[0]), _int(f[1]), _int(f[2]), _int(f[3]), f[4])
                 facts[i] = f
             except Exception as e:      # a file that cannot be loaded
@@ -443,9 +599,9 @@ def read_disk(case, root, tab):
     if os.path.exists(fn):
         try:
             sr = SimulationResults.load_from_file(fn)
-            n = len(sr['sum'])
+            n = len(sr['sum']) if 'sum' in sr.get_result_names() else 0
             s = 'V%s/%s' % (','.join(_int(r) for r in sr.runned_reps), '_'.join(
-                '%s.%s.%s' % (_int(sr['sum'][j]._value), _int(tok_of(sr, j, ntok(case))),
+                '%s.%s.%s' % (_int(unscale(sr['sum'][j]._value, case)), _int(tok_of(sr, j, ntok(case))),
                               _int(sr['num_skipped_reps'][j]._value)) for j in range(n)))
         except Exception:
             s = 'T'
@@ -457,16 +613,18 @@ def read_disk(case, root, tab):
 ERRMAP = {'EOFError': 'LoadError', 'UnpicklingError': 'LoadError'}
 
 
-def run_to_end(case, which, root, tab, hooks=None):
-    """run `simulate()` of run `which` in `root`; returns observations"""
+def run_to_end(case, which, root, tab, hooks=None, runner=None, clock=None, built=None):
+    """run `simulate()` of run `which` in `root` (on a fresh runner unless one is given); returns observations"""
     log = []
-    clock = FakeClock()
+    clock = clock or FakeClock()
     cwd = os.getcwd()
     os.chdir(root)
     status = 'ok'
     try:
         with Instrument(hooks, clock):
-            runner = make_runner(case, which, root, hooks, clock, log)
+            if runner is None:
+                runner = make_runner(case, which, built)
+            arm(runner, case, which, hooks, clock, log)
             try:
                 runner.simulate()
             except Crash:
@@ -477,14 +635,37 @@ def run_to_end(case, which, root, tab, hooks=None):
                 status = ERRMAP.get(type(e).__name__, type(e).__name__)
     finally:
         os.chdir(cwd)
+    ob = {'status': status, 'log': log, 'runner': runner, 'clock': clock}
+    ob.update(runner_stats(runner, case))
+    return ob
+
+
+def runner_stats(runner, case):
     res = runner.results
     n = len(res['sum']) if 'sum' in res.get_result_names() else 0
     nt = ntok(case)
-    stats = ['%s.%s.%s' % (_int(res['sum'][j]._value), _int(tok_of(res, j, nt)),
+    stats = ['%s.%s.%s' % (_int(unscale(res['sum'][j]._value, case)), _int(tok_of(res, j, nt)),
                            _int(res['num_skipped_reps'][j]._value)) for j in range(n)]
     reps = runner.runned_reps if isinstance(runner.runned_reps, list) else [runner.runned_reps]
-    return {'status': status, 'log': log, 'reps': [int(r) for r in reps], 'stats': stats,
-            'toks': [tok_of(res, j, nt) for j in range(n)]}
+    return {'reps': [int(r) for r in reps], 'stats': stats, 'toks': [tok_of(res, j, nt) for j in range(n)]}
+
+
+def describe(obj):
+    """everything observable about a value handed to the library"""
+    import numpy as np
+    if isinstance(obj, np.ndarray):
+        return ('nd', str(obj.dtype), obj.shape, obj.strides, canon(obj))
+    return (type(obj).__name__, canon(obj))
+
+
+def dir_digest(root):
+    """names and bytes of every file below `root`"""
+    out = {}
+    for dp, _, fns in os.walk(root):
+        for fn in fns:
+            with open(os.path.join(dp, fn), 'rb') as f:
+                out[os.path.relpath(os.path.join(dp, fn), root)] = f.read()
+    return out
 
 
 def trace_kinds(case, scratch):
@@ -498,17 +679,21 @@ def trace_kinds(case, scratch):
         shutil.rmtree(root, ignore_errors=True)
 
 
-def crash_and_restart(case, m, tear, scratch, tab, hard=True):
+def crash_and_restart(case, m, tear, scratch, tab, hard=True, extras=False):
     """run 1 with the crash (after event m, or torn inside the write that is event tear[0]); then run 2
     in the directory as the unwinding left it (soft) and in the snapshot taken at the crash (hard).
-    Returns {'soft': obs, 'hard': obs | None}; obs = {'crash': diskstr, 'facts', 'calls1', 'run2', 'disk'}"""
+    `case['same_runner']`: the soft restart calls simulate() again on the SAME runner object.
+    `extras`: additionally (soft only) R3 inputs untouched, R4 a refused restart changes no file and a
+    following correct restart behaves as if it had never happened, R3/R7 a further restart on shared
+    parameter objects changes neither them nor the earlier runner's results.
+    Returns {'soft': obs, 'hard': obs | None}; obs = {'crash': diskstr, 'facts', 'calls1', 'run2', 'disk', ...}"""
     root = tempfile.mkdtemp(prefix='c07_', dir=scratch)
-    snap = root + '_snap' if hard else None
+    snap = root + '_snap' if hard and not case.get('same_runner') else None
     out = {}
     try:
         h = Hooks(root, crash_after=m if tear is None else None, tear=tear, snap=snap, final=final_name(case))
         if m == 0 and tear is None:
-            ob1 = {'log': [], 'status': 'crash'}        # killed before anything happened
+            ob1 = {'log': [], 'status': 'crash', 'runner': None, 'clock': None}   # killed before anything happened
             if snap:
                 os.mkdir(snap)
             h.fired = 'start'
@@ -523,10 +708,53 @@ def crash_and_restart(case, m, tear, scratch, tab, hard=True):
                 shutil.rmtree(root)
                 os.rename(snap, root)
             crash, facts = read_disk(case, root, tab)
-            ob2 = run_to_end(case, 2, root, tab)
+            before = dir_digest(root) if extras and kind == 'soft' else None
+            reuse = kind == 'soft' and case.get('same_runner') and ob1['runner'] is not None
+            if reuse:
+                ob1['runner'].script['hooks'] = None
+                ob2 = run_to_end(case, 2, root, tab, runner=ob1['runner'], clock=ob1['clock'])
+            else:
+                ob2 = run_to_end(case, 2, root, tab)
             disk, facts2 = read_disk(case, root, tab)
-            out[kind] = {'crash': crash, 'facts': facts, 'calls1': len(ob1['log']), 'log1': ob1['log'],
-                         'status1': ob1['status'], 'fired': fired, 'run2': ob2, 'disk': disk, 'facts2': facts2}
+            ob = {'crash': crash, 'facts': facts, 'calls1': len(ob1['log']), 'log1': ob1['log'],
+                  'status1': ob1['status'], 'fired': fired, 'run2': ob2, 'disk': disk, 'facts2': facts2}
+            if extras and kind == 'soft':
+                ex = {}
+                # R3: the values handed to the runners are what they were
+                for which, r in ((1, ob1['runner']), (2, ob2['runner'])):
+                    if r is None:
+                        continue
+                    spec = case['p%d' % which]
+                    fresh = {k: build(v, spec.get('rep', {}).get(k)) for k, v in spec['fixed'].items()}
+                    fresh.update({n: build(list(spec['vals'][n]), spec.get('rep', {}).get(n)) for n in spec['names']})
+                    for k in sorted(fresh):
+                        if describe(r.built[k]) != describe(fresh[k]):
+                            ex['input_mutated'] = (k, spec.get('rep', {}).get(k), repr(describe(r.built[k]))[:120])
+                # R4: a refused restart leaves every file as it was; then the correct restart
+                k1, k2 = variation_keys(case['p1']), variation_keys(case['p2'])
+                if ob2['status'] == 'ValueError' and not ob2['log'] and 0 in facts and k1[:1] != k2[:1]:
+                    # the very first variation is refused: nothing at all may have happened
+                    after = dir_digest(root)
+                    ex['refused_changed'] = sorted(k for k in set(before) | set(after) if before.get(k) != after.get(k))
+                    case_ok = dict(case, p2=case['p1'])
+                    crash_ok, facts_ok = read_disk(case_ok, root, tab)
+                    ob3 = run_to_end(case_ok, 2, root, tab)
+                    disk3, facts3 = read_disk(case_ok, root, tab)
+                    ex['after_refusal'] = dict(ob, crash=crash_ok, facts=facts_ok, run2=ob3, disk=disk3, facts2=facts3)
+                # R3/R7: one more restart, on the SAME parameter objects, in the completed folder
+                if ob2['status'] == 'ok':
+                    snap2 = runner_stats(ob2['runner'], case)
+                    ob3 = run_to_end(case, 2, root, tab, built=ob2['runner'].built)
+                    ex['again'] = {'status': ob3['status'], 'calls': len(ob3['log']), 'stats': ob3['stats'],
+                                   'reps': ob3['reps'], 'earlier_now': runner_stats(ob2['runner'], case),
+                                   'earlier_then': snap2}
+                    for k in sorted(ob2['runner'].built):
+                        spec = case['p2']
+                        v = spec['fixed'][k] if k in spec['fixed'] else list(spec['vals'][k])
+                        if describe(ob2['runner'].built[k]) != describe(build(v, spec.get('rep', {}).get(k))):
+                            ex['input_mutated'] = (k, spec.get('rep', {}).get(k), 'after a further restart')
+                ob['extras'] = ex
+            out[kind] = ob
         return out
     finally:
         shutil.rmtree(root, ignore_errors=True)
@@ -560,7 +788,8 @@ def oracle_point(case, ob):
     out = []
     call = 'SimulationRunner.simulate'
     fired = ob['fired'] or 'end'
-    same = case['p1'] == case['p2']
+    same = variation_keys(case['p1']) == variation_keys(case['p2'])
+    kind = diff_kind(case)
     k1 = variation_keys(case['p1'])
     k2 = variation_keys(case['p2'])
     tab = tag_table(case)
@@ -592,8 +821,12 @@ def oracle_point(case, ob):
     if same:
         if r2['status'] not in ('ok', 'Exhausted'):
             torn = sorted(i for i, f in facts.items() if f[0] == 'torn')
-            out.append((call, 'restart-fails:after-' + fired,
-                        'restart with the same parameters raised %s; unreadable partial files: %r'
+            cls = 'restart-fails:after-' + fired
+            if not torn and kind == 'representation-only':
+                cls = 'same-parameters-refused:representation-only'   # R1/R2: same values, other types/layout
+            elif not torn and any(c[0] == 'nan' for k in k1 for _, c in k[1]):
+                cls = 'same-parameters-refused:nan-value'
+            out.append((call, cls, 'restart with the same parameters raised %s; unreadable partial files: %r'
                         % (r2['status'], torn)))
             return out
         first_bad = None
@@ -609,10 +842,10 @@ def oracle_point(case, ob):
             changed = [i for i in facts if i >= first_bad and ob['facts2'].get(i) != facts[i]]
             if r2['status'] in ('ok',) or later or changed or (
                     r2['status'] not in ('ValueError', 'Exhausted') and facts[first_bad][0] != 'torn'):
-                out.append(('SimulationResultsSaver.load_partial_results', 'mismatch-not-refused',
-                            'variation %d has partial results saved for other parameters; restart status %s, '
-                            'calls to it or later ones: %d, files changed: %r'
-                            % (first_bad, r2['status'], len(later), changed)))
+                out.append(('SimulationResultsSaver.load_partial_results', 'mismatch-not-refused:' + kind,
+                            'variation %d has partial results saved for other parameters (%s); restart status '
+                            '%s, calls to it or later ones: %d, files changed: %r'
+                            % (first_bad, kind, r2['status'], len(later), changed)))
             return out
         if r2['status'] not in ('ok', 'Exhausted'):
             out.append((call, 'restart-fails:after-' + fired, 'restart raised %s' % r2['status']))
@@ -638,7 +871,7 @@ def oracle_point(case, ob):
                         'repetitions, %d distinct tokens' % (i, r2['reps'][i], dur_rep, len(new),
                                                             popcount(r2['toks'][i]))))
             return out
-        if dur_rep >= rm2 and any(c[0] == i for c in r2['log']) and all(k.split(':')[0] != 'skiplt'
+        if f is not None and dur_rep >= rm2 and any(c[0] == i for c in r2['log']) and all(k.split(':')[0] != 'skiplt'
                                                                          for k in case['keep']):
             out.append((call, 're-executed-completed-variation',
                         'variation %d had %d >= rep_max repetitions saved and was run again' % (i, dur_rep)))
@@ -653,12 +886,48 @@ def oracle_point(case, ob):
     return out
 
 
+def oracle_extras(case, ob):
+    """R3 / R4 / R7 observations of one (soft) crash point. Returns [(call, class, detail)]."""
+    out = []
+    ex = ob.get('extras') or {}
+    call = 'SimulationRunner.simulate'
+    if 'input_mutated' in ex:
+        k, rep, what = ex['input_mutated']
+        out.append((call, 'input-mutated:%s' % (rep or 'default'),
+                    'the value handed over for parameter %r was changed by the library: %s' % (k, what)))
+    if ex.get('refused_changed'):
+        out.append(('SimulationResultsSaver.load_partial_results', 'refused-restart-changed-files:' + diff_kind(case),
+                    'the restart was refused with ValueError but these files changed: %r' % ex['refused_changed']))
+    if 'after_refusal' in ex:
+        case_ok = dict(case, p2=case['p1'])
+        for c, cls, d in oracle_point(case_ok, ex['after_refusal']):
+            out.append((c, cls + ':after-refused-restart', d))
+    ag = ex.get('again')
+    if ag is not None:
+        r2 = ob['run2']
+        if ag['earlier_now'] != ag['earlier_then']:
+            out.append((call, 'earlier-results-changed', 'results of the finished runner changed when another '
+                        'runner restarted in the same folder: %r -> %r' % (ag['earlier_then'], ag['earlier_now'])))
+        limit = all(r >= case['rm2'] for r in r2['reps'])
+        core_ = lambda st: [x.rsplit('.', 1)[0] for x in st]     # sum and tokens (the skip counter restarts at 0)
+        # every variation at its limit: nothing is left to do; otherwise a stop rule may legitimately go on
+        if ag['status'] != 'ok' or (limit and (core_(ag['stats']) != core_(r2['stats']) or ag['reps'] != r2['reps']
+                                               or ag['calls'])):
+            has_nan = any(c[0] == 'nan' for k in variation_keys(case['p2']) for _, c in k[1])
+            out.append((call, 'same-parameters-refused:nan-value' if has_nan and ag['status'] == 'ValueError'
+                        else 'repeated-restart-differs', 'a further restart in the completed folder: status %s, '
+                        '%d calls, results %r reps %r; the completed run had %r %r'
+                        % (ag['status'], ag['calls'], ag['stats'], ag['reps'], r2['stats'], r2['reps'])))
+    return out
+
+
 def _replay_point(case, m, tear, hard):
     scratch = tempfile.mkdtemp(prefix='c07_replay_')
     try:
-        r = crash_and_restart(case, m, tuple(tear) if tear else None, scratch, tag_table(case), hard=hard)
+        r = crash_and_restart(case, m, tuple(tear) if tear else None, scratch, tag_table(case), hard=hard,
+                              extras=not hard)
         ob = r['hard' if hard else 'soft']
-        return oracle_point(case, ob) if ob is not None else []
+        return (oracle_point(case, ob) + oracle_extras(case, ob)) if ob is not None else []
     finally:
         shutil.rmtree(scratch, ignore_errors=True)
 
@@ -683,12 +952,22 @@ def replay(ctx, rep):
 
 # ------------------------------------------------------------------ generators
 SHAPES_SMALL = [(), (1,), (2,), (1, 1), (2, 1), (1, 2), (2, 2)]
+VARIANTS = ['same', 'repmax', 'representation-only', 'fixed-changed', 'value-changed', 'grid-extended',
+            'grid-shrunk', 'grid-reordered', 'param-added-scalar', 'param-added-array', 'param-removed',
+            'unpacked-set-changed', 'type-str', 'type-none', 'shape-changed']
+OUT_REPS = ['int', 'float', 'np.int16', 'np.int32', 'np.int64', 'np.float32', 'np.float64']
+RM_REPS = ['int', 'np.int8', 'np.int16', 'np.uint16', 'np.int32', 'np.int64']
 
 
-def spec_of(shape, names=('a', 'b'), base=10, fixed=7):
+def spec_of(shape, names=('a', 'b'), base=10, fixed=7, rich=False, two_d=False):
     names = list(names[:len(shape)])
     vals = {nm: [base * (j + 1) + k for k in range(ln)] for j, (nm, ln) in enumerate(zip(names, shape))}
-    return {'fixed': {'fx0': fixed}, 'names': names, 'vals': vals}
+    if two_d and names:         # every value of the first parameter is itself a 1-element row
+        vals[names[0]] = [[x] for x in vals[names[0]]]
+    fx = {'fx0': fixed}
+    if rich:
+        fx.update({'fl': [5, 5], 'z0': 0, 'nn': None, 'sn': ''})
+    return {'fixed': fx, 'names': names, 'vals': vals}
 
 
 def gen_outs(rng, n, skip_p):
@@ -699,12 +978,75 @@ def gen_clk(rng, n, p):
     return [301 if rng.chance(p) else rng.choice([0, 0, 1, 100]) for _ in range(n)] if p > 0 else []
 
 
-def gen_case(rng, shapes=SHAPES_SMALL, rmax=6):
+def random_reps(rng, spec, json_ok=True):
+    """a representation for every parameter (R1 element types, R2 layouts)"""
+    rep = {}
+    for k, v in spec['fixed'].items():
+        if isinstance(v, list):
+            rep[k] = rng.choice([r for r in SEQ_REPS if json_ok or True])
+        elif isinstance(v, int):
+            rep[k] = rng.choice(SCALAR_REPS + (['bool'] if v in (0, 1) else []))
+    for n in spec['names']:
+        rep[n] = rng.choice(SEQ_REPS + ['tuple'])
+        if spec['vals'][n] and isinstance(spec['vals'][n][0], list) and rep[n] in ('tuple', 'nd:int64:bcast'):
+            rep[n] = 'nd:int32:F'
+    return rep
+
+
+def make_variant(rng, p1, kind):
+    """the parameters of run 2 for one kind of difference; None when `p1` does not admit it"""
+    fx = dict(p1['fixed'])
+    vals = {n_: list(x) for n_, x in p1['vals'].items()}
+    names = list(p1['names'])
+    p2 = dict(p1, fixed=fx, vals=vals, names=names)
+    if kind in ('same', 'repmax'):
+        return p1
+    if kind == 'representation-only':
+        rep = random_reps(rng, p1)
+        return dict(p1, rep=rep) if rep != p1.get('rep', {}) else None
+    if kind == 'fixed-changed':
+        fx['fx0'] = fx['fx0'] + 1
+    elif kind == 'value-changed' and names:
+        nm = rng.choice(names)
+        vals[nm][rng.below(len(vals[nm]))] = [99] if isinstance(vals[nm][0], list) else 99
+    elif kind == 'grid-extended' and names and nvar_of(p1) // len(vals[names[0]]) * (len(vals[names[0]]) + 1) <= 9:
+        vals[names[0]] = vals[names[0]] + ([[77]] if isinstance(vals[names[0]][0], list) else [77])
+    elif kind == 'grid-shrunk' and names and len(vals[names[0]]) >= 2:
+        vals[names[0]] = vals[names[0]][:-1]
+    elif kind == 'grid-reordered' and names and len(vals[names[0]]) >= 2:
+        vals[names[0]] = vals[names[0]][::-1]
+    elif kind == 'param-added-scalar':
+        fx['new0'] = rng.choice([3, 0, None, ''])
+    elif kind == 'param-added-array':
+        fx['newv'] = rng.choice([[1, 2], [0], []])
+    elif kind == 'param-removed':
+        del fx[rng.choice(sorted(fx))]
+    elif kind == 'unpacked-set-changed' and 'fl' in fx and names and nvar_of(p1) * len(fx['fl']) <= 9:
+        names.append('fl')
+        vals['fl'] = fx.pop('fl')
+    elif kind == 'type-str':
+        fx['fx0'] = str(fx['fx0'])
+    elif kind == 'type-none' and 'z0' in fx:
+        fx['z0'] = None
+    elif kind == 'shape-changed' and 'fl' in fx:
+        fx['fl'] = rng.choice([[5], 5, [5, 5, 5], [[5, 5]], []])
+        p2['rep'] = dict(p1.get('rep', {}), fl=rng.choice(['nd:int64', 'nd:float32', 'list']))
+        if p2['rep'] == p1.get('rep', {}) or rng.chance(0.5):
+            p1['rep'] = dict(p1.get('rep', {}), fl=rng.choice(['nd:int64', 'nd:int16']))
+    else:
+        return None
+    return p2
+
+
+def gen_case(rng, shapes=SHAPES_SMALL, rmax=6, kind=None):
     shape = rng.choice(shapes)
     names = ('a', 'b') if rng.chance(0.5) else ('b', 'a')
-    p1 = spec_of(shape, names)
+    ext = rng.choice(['', '.pickle', '.json'])
+    p1 = spec_of(shape, names, rich=rng.chance(0.7), two_d=bool(shape) and rng.chance(0.15))
+    if rng.chance(0.6):
+        p1['rep'] = random_reps(rng, p1)
     nvar = nvar_of(p1)
-    rm1 = rng.randint(1, rmax)
+    rm1 = rng.randint(1, rmax) if not rng.chance(0.05) else 0
     k = rng.below(10)
     keep = ['always'] if k < 6 else [rng.choice(['sumlt:%d' % rng.randint(0, 9), 'replt:%d' % rng.randint(0, rm1 + 1),
                                                  'skiplt:%d' % rng.randint(0, 2), 'always'])
@@ -713,27 +1055,34 @@ def gen_case(rng, shapes=SHAPES_SMALL, rmax=6):
     need = (rm1 + 2) * nvar * 2 + 4
     outs1 = gen_outs(rng, need if not rng.chance(0.07) else rng.randint(0, need // 3), skip_p)
     clk1 = gen_clk(rng, len(outs1), rng.choice([0.0, 0.1, 0.3]))
-    v = rng.below(100)
-    p2, rm2, variant = p1, rm1, 'same'
-    if v < 10:
-        rm2, variant = max(1, rm1 + rng.choice([-2, -1, 1, 2, 3])), 'repmax'
-    elif v < 17:
-        p2, variant = dict(p1, fixed={'fx0': 8}), 'fixed-changed'
-    elif v < 24 and shape:
-        nm = rng.choice(p1['names'])
-        vals = {n_: list(x) for n_, x in p1['vals'].items()}
-        vals[nm][rng.below(len(vals[nm]))] = 99
-        p2, variant = dict(p1, vals=vals), 'value-changed'
-    elif v < 30 and shape and nvar * (len(p1['vals'][p1['names'][0]]) + 1) // len(p1['vals'][p1['names'][0]]) <= 9:
-        nm = p1['names'][0]
-        vals = {n_: list(x) for n_, x in p1['vals'].items()}
-        vals[nm] = vals[nm] + [77]
-        p2, variant = dict(p1, vals=vals), 'grid-extended'
+    p2, rm2, variant = None, rm1, kind
+    while p2 is None:
+        variant = kind or (rng.choice(VARIANTS) if rng.chance(0.5) else 'same')
+        if kind is not None and 'fl' not in p1['fixed']:
+            p1['fixed'].update({'fl': [5, 5], 'z0': 0})
+        p2 = make_variant(rng, p1, variant)
+        if p2 is None and kind is not None:      # the shape does not admit this kind: use a 2x1 grid
+            p1 = spec_of((2, 1), names, rich=True)
+            nvar = nvar_of(p1)
+    if variant == 'repmax':
+        rm2 = max(1, rm1 + rng.choice([-2, -1, 1, 2, 3]))
     need2 = (rm2 + 2) * nvar_of(p2) * 2 + 4
     outs2 = gen_outs(rng, need2 if not rng.chance(0.04) else rng.randint(0, need2 // 3), skip_p)
     clk2 = gen_clk(rng, len(outs2), rng.choice([0.0, 0.2]))
-    return dict(p1=p1, p2=p2, rm1=rm1, rm2=rm2, keep=keep, outs1=outs1, clk1=clk1, outs2=outs2, clk2=clk2,
-                ext=rng.choice(['', '.pickle', '.json']), variant=variant)
+    if ext == '.json' and any('complex' in r for sp in (p1, p2) for r in sp.get('rep', {}).values()):
+        ext = '.pickle'      # a complex scalar parameter cannot be written to a JSON results file (C17's domain)
+    case = dict(p1=p1, p2=p2, rm1=rm1, rm2=rm2, keep=keep, outs1=outs1, clk1=clk1, outs2=outs2, clk2=clk2,
+                ext=ext, variant=variant)
+    if rng.chance(0.4):
+        case['rm_rep'] = rng.choice(RM_REPS)
+    r = rng.below(10)
+    if r < 3:
+        case['out_rep'] = rng.choice(OUT_REPS)
+    elif r < 5:
+        case['scale_exp'] = rng.choice([40, -40])
+    if variant in ('same', 'repmax') and rng.chance(0.3):
+        case.update(same_runner=True, clk1=[], clk2=[])
+    return case
 
 
 def corpus_cases():
@@ -757,6 +1106,60 @@ def corpus_cases():
             if fn.endswith('.json'):
                 with open(os.path.join(d, fn)) as f:
                     out.append(json.load(f)['case'])
+    return out
+
+
+def robust_cases():
+    """one deterministic scenario per kind of parameter difference and per robustness class"""
+    rng = core.Rng(20260929, 'c07-robust')
+    out = []
+    small = dict(rm1=2, rm2=2, keep=['always'], outs1=[1, 2, 's', 1, 2, 1, 1, 1], clk1=[], outs2=[3] * 10, clk2=[],
+                 ext='')
+    rich = spec_of((2,), rich=True)
+    for kind in VARIANTS:
+        p2 = make_variant(rng, rich, kind)
+        out.append(dict(small, p1=rich, p2=p2, variant=kind, rm2=4 if kind == 'repmax' else 2))
+    # the remaining choices of the added / shape-changed kinds
+    for v in (0, None, ''):
+        out.append(dict(small, p1=rich, p2=dict(rich, fixed=dict(rich['fixed'], new0=v)), variant='param-added-scalar'))
+    for v in ([1, 2], []):
+        out.append(dict(small, p1=rich, p2=dict(rich, fixed=dict(rich['fixed'], newv=v)), variant='param-added-array'))
+    for v in ([5], 5, [5, 5, 5], [[5, 5]], []):     # as arrays: broadcasting must not make them "equal"
+        out.append(dict(small, p1=dict(rich, rep={'fl': 'nd:int64'}),
+                        p2=dict(rich, fixed=dict(rich['fixed'], fl=v), rep={'fl': 'nd:int64'}), variant='shape-changed'))
+        out.append(dict(small, p1=dict(rich, fixed=dict(rich['fixed'], fl=v), rep={'fl': 'nd:float64'}),
+                        p2=dict(rich, rep={'fl': 'list'}), variant='shape-changed'))
+    out.append(dict(small, p1=dict(rich, fixed=dict(rich['fixed'], fl=[]), rep={'fl': 'nd:float64'}),
+                    p2=dict(rich, fixed=dict(rich['fixed'], fl=7)), variant='shape-changed'))
+    # R1: plain ints / lists in run 1, narrow and floating types in run 2, and the other way round
+    narrow = {'fx0': 'np.int8', 'fl': 'nd:int16', 'z0': 'np.float16', 'a': 'nd:uint8'}
+    floats = {'fx0': 'np.float32', 'fl': 'nd:float32', 'z0': 'float', 'a': 'nd:complex64'}
+    out.append(dict(small, p1=rich, p2=dict(rich, rep=narrow), variant='representation-only', rm_rep='np.int16',
+                    out_rep='np.int16'))
+    out.append(dict(small, p1=dict(rich, rep=floats), p2=rich, variant='representation-only', rm_rep='np.int64',
+                    out_rep='np.float32'))
+    out.append(dict(small, p1=dict(rich, rep=narrow), p2=dict(rich, rep=narrow), variant='same', ext='.json',
+                    out_rep='np.int64', rm_rep='np.uint16'))
+    # R2: strided / reversed / zero-stride / Fortran views, 0-d arrays, 2-D values, a zero-length axis
+    views = {'fx0': 'nd0', 'fl': 'nd:int64:bcast', 'z0': 'nd0', 'a': 'nd:int64:rev'}
+    out.append(dict(small, p1=dict(rich, rep=views), p2=dict(rich, rep={'a': 'nd:float64:stride', 'fl': 'nd:float64:stride'}),
+                    variant='representation-only'))
+    two_d = spec_of((2,), rich=True, two_d=True)
+    out.append(dict(small, p1=dict(two_d, rep={'a': 'nd:int32:F'}), p2=two_d, variant='representation-only'))
+    empty = spec_of((0,), rich=True)
+    out.append(dict(small, p1=empty, p2=empty, variant='same'))
+    # R5: rep_max 0 and 1, a single variation, zero / None / empty-string parameters (in `rich`)
+    out.append(dict(small, p1=spec_of((1,), rich=True), p2=spec_of((1,), rich=True), rm1=0, rm2=0, variant='same'))
+    out.append(dict(small, p1=rich, p2=rich, rm1=1, rm2=1, variant='same', ext='.json'))
+    # R6: every result value multiplied by 2^40 / 2^-40 (about 1e12 / 1e-12), with a stop rule on the sum
+    for e in (40, -40):
+        out.append(dict(small, p1=rich, p2=rich, variant='same', scale_exp=e, keep=['sumlt:5'], rm1=4, rm2=4))
+    # R7: simulate() again on the SAME runner object after the interruption; with a raised rep_max
+    out.append(dict(small, p1=rich, p2=rich, variant='same', same_runner=True))
+    out.append(dict(small, p1=rich, p2=rich, variant='repmax', rm2=3, same_runner=True))
+    # a NaN parameter
+    out.append(dict(small, p1=dict(rich, fixed=dict(rich['fixed'], q=float('nan'))),
+                    p2=dict(rich, fixed=dict(rich['fixed'], q=float('nan'))), variant='same'))
     return out
 
 
@@ -793,10 +1196,16 @@ def run_case(ctx, case, pts=None, tears=(0.0, 0.5, 1.0), hard=True, name='crash-
     """all (or the listed) crash points of one scenario: correspondence + oracles"""
     tab = tag_table(case)
     kinds, ob_full = trace_kinds(case, ctx.scratch)
-    reply = core.Driver(DRIVER).ask([case_line(case, pts)])[0]
-    if reply == 'bad-op':
+    dk = diff_kind(case)
+    lines = [case_line(case, pts)]
+    if dk not in ('same', 'representation-only'):
+        lines.append(case_line(dict(case, p2=case['p1']), pts))      # the correct restart, for R4
+    replies = core.Driver(DRIVER).ask(lines)
+    if 'bad-op' in replies:
         raise core.Infra('driver rejected: ' + case_line(case, pts)[:300])
-    head, mpts = parse_reply(reply)
+    head, mpts = parse_reply(replies[0])
+    mpts_ok = parse_reply(replies[1])[1] if len(replies) > 1 else None
+    robust_branches(ctx, case, dk)
     shape = tuple(len(case['p1']['vals'][n]) for n in sorted(case['p1']['names']))
     ckey = (shape, min(case['rm1'], 7) if case['rm1'] < 400 else case['rm1'], case['variant'], case['ext'],
             case['keep'] != ['always'], any(o == 's' for o in case['outs1']))
@@ -813,7 +1222,8 @@ def run_case(ctx, case, pts=None, tears=(0.0, 0.5, 1.0), hard=True, name='crash-
                 for frac in tears:
                     jobs.append((m - 1, (m, frac)))
     for m, tear in jobs:
-        r = crash_and_restart(case, m, tear, ctx.scratch, tab, hard=hard)
+        extras = tear is None and (m % 3 == 0 or m == len(kinds))
+        r = crash_and_restart(case, m, tear, ctx.scratch, tab, hard=hard, extras=extras)
         for kind in ('soft', 'hard'):
             ob = r.get(kind)
             if ob is None:
@@ -829,11 +1239,23 @@ def run_case(ctx, case, pts=None, tears=(0.0, 0.5, 1.0), hard=True, name='crash-
             ctx.branch(kind)
             if '+t' in ob['crash']:
                 ctx.branch('temp-file-left-by-hard-kill')
-            if any(c[0] == 'V' for c in ob['crash'].split('|')[:-1]) and ob['run2']['log']:
+            if any(c[:1] == 'V' for c in ob['crash'].split('|')[:-1]) and ob['run2']['log']:
                 ctx.branch('resumed-mid-run')
             ctx.sample({'line': case_line(case, [m])[:400], 'tear': tear, 'kind': kind, 'impl': impl[:300],
                         'model': model[:300]}, limit=5)
             viols = oracle_point(case, ob)
+            ex = ob.get('extras')
+            if ex is not None:
+                viols = viols + oracle_extras(case, ob)
+                ctx.branch('R3:inputs-compared')
+                if 'after_refusal' in ex and mpts_ok is not None:
+                    ctx.corr('restart-after-refusal', rec, impl_repr(ex['after_refusal']),
+                             model_repr(mpts_ok[m], True), nontrivial=True, key=ckey + ('after-refusal', evk, m))
+                    ctx.branch('R4:refused-then-correct-restart')
+                if 'again' in ex:
+                    ctx.branch('R7:further-restart-on-shared-parameters')
+            if case.get('same_runner') and ob['run2']['runner'] is not None and m > 0:
+                ctx.branch('R7:same-runner-object')
             seen = set()
             for call, cls, detail in viols:
                 if (call, cls) not in seen:
@@ -842,6 +1264,39 @@ def run_case(ctx, case, pts=None, tears=(0.0, 0.5, 1.0), hard=True, name='crash-
                     ctx.branch('oracle-fail:' + cls)
             if not viols:
                 ctx.branch('oracle-ok')
+
+
+def robust_branches(ctx, case, dk):
+    """which robustness classes a scenario exercises (computed from the scenario)"""
+    ctx.branch('diff:' + dk)
+    reps = set()
+    for spec in (case['p1'], case['p2']):
+        reps |= set(spec.get('rep', {}).values())
+    reps |= {case.get('rm_rep', 'int'), case.get('out_rep', 'int')}
+    if reps & {'np.int8', 'np.uint8', 'np.int16', 'np.uint16', 'np.int32', 'nd:int16', 'nd:int32', 'nd:uint8'}:
+        ctx.branch('R1:narrow-integers')
+    if reps & {'np.float16', 'np.float32', 'nd:float32', 'nd:complex64'}:
+        ctx.branch('R1:float32-float16-complex64')
+    if reps & {'tuple'}:
+        ctx.branch('R1:tuple')
+    if any(r.endswith((':rev', ':stride', ':F', ':bcast')) for r in reps):
+        ctx.branch('R2:non-contiguous-views')
+    if 'nd0' in reps:
+        ctx.branch('R2:0-d-array')
+    for spec in (case['p1'], case['p2']):
+        for n in spec['names']:
+            if not spec['vals'][n]:
+                ctx.branch('R2:zero-length-axis')
+            elif isinstance(spec['vals'][n][0], list):
+                ctx.branch('R2:2-D-values')
+        if any(v == [] for v in spec['fixed'].values()):
+            ctx.branch('R2:size-0-value')
+        if any(v is None or v == 0 or v == '' for v in spec['fixed'].values() if not isinstance(v, list)):
+            ctx.branch('R5:zero-none-empty-values')
+    if case['rm1'] == 0 or case['rm1'] == 1:
+        ctx.branch('R5:rep_max-0-or-1')
+    if case.get('scale_exp'):
+        ctx.branch('R6:scaled-results')
 
 
 def run_case_oracles_only(ctx, case, name='delete-partial-results'):
@@ -891,21 +1346,33 @@ def check(ctx):
                 'write, os.replace; and inside each write after 0 / half / all-but-one bytes) is taken twice: as an '
                 'exception (soft) and as a snapshot of the directory at that moment (hard kill); non-trivial = '
                 'distinct (grid shape, rep_max, run-2 variant, file type, stop rule, skips, event kind at the crash, '
-                'soft/hard, restart status, crash index); a few scenarios are repeated with delete_partial_results_bool=True '
+                'soft/hard, restart status, crash index); parameters are LOGICAL values handed over in random '
+                'representations (numpy scalar / array dtypes, views, tuples), 15 kinds of run-2 difference, numpy rep_max '
+                'and result types, results scaled by 2^+-40, same-runner restarts; every third crash point also checks '
+                'inputs untouched, refused-then-correct restart, and a further restart on shared parameter objects; '
+                'a few scenarios are repeated with delete_partial_results_bool=True '
                 '(oracles only, no model)')
     quick = ctx.tier == 'quick'
     core.prove(ctx, MODULE, generated=GENERATED, drivers=[DRIVER], scratch=ctx.scratch)
     ctx.required_branches = ['crash:call', 'crash:tmpOpen', 'crash:tmpWrite', 'crash:rename', 'crash:Frename',
                              'crash:tear', 'soft', 'hard', 'restart:ok', 'restart:ValueError', 'resumed-mid-run',
                              'temp-file-left-by-hard-kill', 'variant:same', 'variant:repmax', 'ext:.json',
-                             'ext:none', 'oracle-ok', 'crash:remove']
+                             'ext:none', 'oracle-ok', 'crash:remove',
+                             'diff:added-parameter', 'diff:removed-parameter', 'diff:value-changed',
+                             'diff:type-changed', 'diff:shape-changed', 'diff:unpacked-set-changed',
+                             'diff:grid-changed', 'diff:representation-only',
+                             'R1:narrow-integers', 'R1:float32-float16-complex64', 'R2:non-contiguous-views',
+                             'R2:0-d-array', 'R2:zero-length-axis', 'R2:2-D-values', 'R2:size-0-value',
+                             'R3:inputs-compared', 'R4:refused-then-correct-restart', 'R5:zero-none-empty-values',
+                             'R5:rep_max-0-or-1', 'R6:scaled-results', 'R7:same-runner-object',
+                             'R7:further-restart-on-shared-parameters']
     try:
         rng = ctx.rng.fork('cases')
-        cases = corpus_cases() + [gen_case(rng) for _ in range(40 if quick else 300)]
+        cases = corpus_cases() + robust_cases() + [gen_case(rng) for _ in range(30 if quick else 300)]
         for c in cases:
             run_case(ctx, c)
         for c in corpus_cases()[:2 if quick else 5] + ([] if quick else [gen_case(rng) for _ in range(20)]):
-            if c['p1'] == c['p2']:
+            if diff_kind(c) == 'same' and not c.get('same_runner'):
                 run_case_oracles_only(ctx, dict(c, delete=True))
         if not quick:
             for c in exhaustive_cases():
